@@ -209,11 +209,18 @@ class ScipyDist(Opaque):
         zps = [T.zr(p) for p in ps]
         if method == "cdf":
             cx.fact(z3.And(t >= 0, t <= 1), "scipy:0<=cdf<=1")
+            if self.name == "norm":
+                cx.fact(z3.And(t > 0, t < 1), "scipy:0<Phi<1 for finite argument")
+                cx.fact(z3.Implies(zps[1] > 0, f_ppf(t, *zps) == T.zr(x)), "scipy:norm.ppf(norm.cdf(x))=x")
         elif method == "pdf":
             cx.fact(t >= 0, "scipy:pdf>=0")
         elif method == "ppf":
             xz = T.zr(x)
             cx.fact(z3.Implies(z3.And(xz > 0, xz < 1), f_cdf(t, *zps) == xz), "scipy:cdf(ppf(p))=p on (0,1)")
+            if self.name == "chi2":
+                cx.fact(z3.Implies(z3.And(xz > 0, xz < 1), t > 0), "scipy:chi2.ppf>0 on (0,1)")
+            if self.name == "norm":
+                cx.fact(z3.Implies(z3.And(xz >= z3.RealVal("1/2"), xz < 1, zps[0] == 0, zps[1] > 0), t >= 0), "scipy:norm.ppf(p)>=0 for p>=1/2")
 
     def _fit(self, itp, args, kwargs):
         cx = itp.cx
